@@ -697,6 +697,7 @@ func exprKeyNode(n ast.Node) string {
 // =========================== C20 ===========================================================
 
 func runC20(c *Ctx) {
+	defer ruleEveryStatementSubmitted(c, "C20.9")
 	c.Rule("C20.1", "the statement split depends on quote characters: the function that cuts the line at ';' tracks an opening quote character, and a literal is closed only by the SAME character that opened it (comparison with the remembered opening quote, not membership in the set of quote characters); backslash skips the escaped character")
 	c.Rule("C20.2", "the submit decision on Enter is taken from the split itself: the condition that submits the line is computed from the split's `rest` position (only blanks follow the last unquoted terminator), not from the last character of the buffer; the submitted statements are exactly the split's result, in order; the buffer is cleared only on submit")
 	c.Rule("C20.3", "no input byte is dropped: the key decoder decodes a rune only when the buffered bytes hold a full rune (utf8.FullRune guards utf8.DecodeRune), so a multi-byte character split across two reads is kept for the next read")
@@ -1212,7 +1213,7 @@ func ruleBytesDecodedOnlyByKeyReader(c *Ctx, rule string) {
 					if tv, ok := f.Pkg.TypesInfo.Types[y.Fun]; ok && tv.IsType() {
 						if sl, ok := tv.Type.Underlying().(*types.Slice); ok {
 							if b, ok := sl.Elem().Underlying().(*types.Basic); ok && b.Kind() == types.Int32 {
-								if inner, ok := ast.Unparen(y.Args[0]).(*ast.CallExpr); ok && len(inner.Args) == 1 && isBytes(f, inner.Args[0]) {
+								if inner, ok := ast.Unparen(y.Args[0]).(*ast.CallExpr); ok && len(inner.Args) == 1 && isBytes(f, inner.Args[0]) && !wholeInput(f, inner.Args[0]) {
 									if itv, ok := f.Pkg.TypesInfo.Types[inner.Fun]; ok && itv.IsType() {
 										what = "[]rune(string(…))"
 									}
@@ -1227,7 +1228,7 @@ func ruleBytesDecodedOnlyByKeyReader(c *Ctx, rule string) {
 					c.Fail(rule, f.Name+"|decodes-bytes#"+itoa(idx), y.Pos(), "%s turns input bytes into characters with %s instead of leaving it to bytesToKey: a multi-byte character cut by the end of a read is decoded as U+FFFD and lost", f.Name, what)
 				}
 			case *ast.RangeStmt:
-				if inner, ok := ast.Unparen(y.X).(*ast.CallExpr); ok && len(inner.Args) == 1 && isBytes(f, inner.Args[0]) {
+				if inner, ok := ast.Unparen(y.X).(*ast.CallExpr); ok && len(inner.Args) == 1 && isBytes(f, inner.Args[0]) && !wholeInput(f, inner.Args[0]) {
 					if itv, ok := f.Pkg.TypesInfo.Types[inner.Fun]; ok && itv.IsType() {
 						if b, ok := itv.Type.Underlying().(*types.Basic); ok && b.Kind() == types.String {
 							idx++
@@ -1261,4 +1262,37 @@ func isReadLineResult(f *Func, e ast.Expr) bool {
 		}
 	}
 	return false
+}
+
+
+// wholeInput: the byte slice is everything a source had to give (os.ReadFile, io.ReadAll): no character can be cut by
+// the end of a read, which is what the key reader's FullRune test is for.
+func wholeInput(f *Func, e ast.Expr) bool {
+	id, ok := ast.Unparen(e).(*ast.Ident)
+	if !ok {
+		return false
+	}
+	defs := f.assignsTo(f.Decl.Body, f.ObjOf(id))
+	if len(defs) == 0 {
+		return false
+	}
+	for _, as := range defs {
+		if len(as.Rhs) != 1 {
+			return false
+		}
+		call, ok := ast.Unparen(as.Rhs[0]).(*ast.CallExpr)
+		if !ok {
+			return false
+		}
+		fn := f.Callee(call)
+		if fn == nil || fn.Pkg() == nil {
+			return false
+		}
+		switch fn.Pkg().Path() + "." + fn.Name() {
+		case "os.ReadFile", "io.ReadAll", "io/ioutil.ReadFile", "io/ioutil.ReadAll":
+		default:
+			return false
+		}
+	}
+	return true
 }
